@@ -127,7 +127,13 @@ impl<'a> SdesChunk<'a> {
 
     /// The length of this chunk
     pub fn length(&self) -> usize {
-        let len = Self::MIN_LEN + self.items.iter().fold(0, |acc, item| acc + item.length());
+        // SSRC, then type + length + value per item, then at least one terminating null
+        let len = Self::MIN_LEN
+            + self
+                .items
+                .iter()
+                .fold(0, |acc, item| acc + 2 + item.length())
+            + 1;
         pad_to_4bytes(len)
     }
 
